@@ -234,6 +234,12 @@ func main() {
 		mk("rlimit-nice", "apparmor", "DENIED", "operation", "setrlimit", "class", "rlimits", "profile", "prog", "comm", "prog", "rlimit", "nice", "=value", "30"),
 		mk("rlimit-nice", "apparmor", "DENIED", "operation", "setrlimit", "class", "rlimits", "profile", "prog", "comm", "prog", "rlimit", "nice", "=value", "10"),
 	}
+	// (fourth hunt) a path of the noise list asked for with an access abstractions/base does not grant: not noise
+	for _, nr := range [][3]string{{"open", "/dev/urandom", "w"}, {"open", "/dev/random", "w"}, {"rename_dest", "/etc/ld.so.cache", "wc"}, {"open", "/usr/lib/locale/locale-archive", "wc"},
+		{"open", "/usr/share/zoneinfo/UTC", "w"}, {"open", "/usr/lib/libfoo.so.1", "w"}, {"open", "/dev/log", "r"}} {
+		n++
+		w.Encode(process(fmt.Sprintf("file-noise-path-other-access-%d", n), fileRec("DENIED", nr[0], nr[1], nr[2], "0", "0")))
+	}
 	// (fourth hunt) two requests on one resource: AppArmor keeps the last `set rlimit` of a resource, so the emitted rules
 	// must allow the larger request whatever order they are written in
 	n++
